@@ -20,6 +20,7 @@ import AdaptixProofs.Lemmas.MorphTrailComplete
 import AdaptixProofs.Lemmas.MorphTrailDisable
 import AdaptixProofs.Lemmas.MorphTrailFirst
 import AdaptixProofs.Lemmas.MorphTrailNodup
+import AdaptixProofs.Lemmas.MorphTrailExample
 
 namespace Adaptix.Morph.C05
 open Adaptix.Py Adaptix.Morph
@@ -183,35 +184,15 @@ theorem all_err_iff_faults {W : World} (hW : LeafReportsInput W) (hG : LeafNotGr
 
 /-! ## non-vacuity -/
 
-/-- a small world: strict `int` / `str` / `None` leaves by tag; one model class
-    `P(x: int, tags: list[str] = [])` -/
-def exW : World where
-  classes := fun c =>
-    if c == "P" then
-      some [⟨"x", .scalar "int", true, .none⟩, ⟨"tags", .iter .list true (.scalar "str"), false, .list []⟩]
-    else none
-  scalarLoad := fun _ name d =>
-    match name, d with
-    | "int", .int i => .ok (.int i)
-    | "str", .str t => .ok (.str t)
-    | "none", .none => .ok .none
-    | _, d => .err (LErr.leaf "TypeLoadError" d)
-  scalarDump := fun _ x => .ok x
-
-theorem exW_err {s : Bool} {name : String} {d : Val} {e : LErr}
-    (h : exW.scalarLoad s name d = .err e) : e = LErr.leaf "TypeLoadError" d := by
-  simp only [exW] at h
-  split at h <;> simp_all
-
 /-- the hypotheses on the leaves are satisfiable -/
-example : LeafReportsInput exW := fun s name d e h => by
-  rw [exW_err h]; exact ⟨rfl, rfl, rfl⟩
-example : LeafNotGroup exW := fun s name d e h => by
-  rw [exW_err h]; simp [LErr.leaf, LErr.cls]
-example : NoneLeafSpec exW := fun s d => by
-  cases d <;> simp [exW, Val.isNone]
-example : FieldNamesDistinct exW := fun cls fields h => by
-  simp only [exW] at h
+example : LeafReportsInput trailExW := fun s name d e h => by
+  rw [trail_exW_err h]; exact ⟨rfl, rfl, rfl⟩
+example : LeafNotGroup trailExW := fun s name d e h => by
+  rw [trail_exW_err h]; simp [LErr.leaf, LErr.cls]
+example : NoneLeafSpec trailExW := fun s d => by
+  cases d <;> simp [trailExW, Val.isNone]
+example : FieldNamesDistinct trailExW := fun cls fields h => by
+  simp only [trailExW] at h
   split at h
   · cases h; simp
   · cases h
@@ -224,20 +205,20 @@ example : trailWf dLD = true := by
   simp [trailWf, trailWfL, trailWfKV, trailWfP, trailKeysOk, dLD, Val.pyEq]
 
 /-- ALL: nested groups with relative trails … -/
-example : load exW ⟨.all, true⟩ 3 tLD dLD =
+example : load trailExW ⟨.all, true⟩ 3 tLD dLD =
     .err (LErr.agg [
       (LErr.agg [(LErr.leaf "TypeLoadError" (.str "x")).push (.key (.str "a"))]).push (.idx 0),
       (LErr.agg [(LErr.leaf "TypeLoadError" .none).push (.key (.str "b")),
                  (LErr.leaf "TypeLoadError" (.int 3)).push (.itemKey (.int 3))]).push (.idx 1)]) := rfl
 
 /-- … report exactly the three faults with absolute trails and the offending inputs -/
-example : ∃ e, load exW ⟨.all, true⟩ 3 tLD dLD = .err e ∧
+example : ∃ e, load trailExW ⟨.all, true⟩ 3 tLD dLD = .err e ∧
     (reports e).map (fun p => (p.1, p.2.cls, p.2.input)) =
       [([.idx 0, .key (.str "a")], "TypeLoadError", some (.str "x")),
        ([.idx 1, .key (.str "b")], "TypeLoadError", some .none),
        ([.idx 1, .itemKey (.int 3)], "TypeLoadError", some (.int 3))] := ⟨_, rfl, rfl⟩
 
-example : Faults exW true 3 tLD dLD =
+example : Faults trailExW true 3 tLD dLD =
     [([.idx 0, .key (.str "a")], "TypeLoadError"),
      ([.idx 1, .key (.str "b")], "TypeLoadError"),
      ([.idx 1, .itemKey (.int 3)], "TypeLoadError")] := rfl
@@ -250,20 +231,20 @@ example : follow dLD [.idx 1, .itemKey (.int 3)] = some (.int 3) := by
   simp [follow, trailStep, dLD, Val.iterElems, Val.pyEq]
 
 /-- FIRST: one report, the first fault, with its full trail -/
-example : ∃ e, load exW ⟨.first, true⟩ 3 tLD dLD = .err e ∧
+example : ∃ e, load trailExW ⟨.first, true⟩ 3 tLD dLD = .err e ∧
     (reports e).map (fun p => (p.1, p.2.cls, p.2.input)) =
       [([.idx 0, .key (.str "a")], "TypeLoadError", some (.str "x"))] := ⟨_, rfl, rfl⟩
 
 /-- DISABLE: the bare leaf (value before key: `{"b": None, 3: 4}` alone reports the value) -/
-example : load exW ⟨.disable, true⟩ 3 tLD dLD = .err (LErr.leaf "TypeLoadError" (.str "x")) := rfl
+example : load trailExW ⟨.disable, true⟩ 3 tLD dLD = .err (LErr.leaf "TypeLoadError" (.str "x")) := rfl
 
 /-- a model: a bad field and a bad element of a list field -/
 def dP : Val := .dict [(.str "x", .str "bad"), (.str "tags", .list [.str "ok", .int 5])]
 
-example : load exW ⟨.all, true⟩ 4 (.model "P") dP = .err (LErr.agg [
+example : load trailExW ⟨.all, true⟩ 4 (.model "P") dP = .err (LErr.agg [
       (LErr.leaf "TypeLoadError" (.str "bad")).push (.key (.str "x")),
       (LErr.agg [(LErr.leaf "TypeLoadError" (.int 5)).push (.idx 1)]).push (.key (.str "tags"))]) := by
-  simp [load, exW, dP, loadModel, modelItems, Val.lookup, Val.pyEq, seqMode, sweepAll,
+  simp [load, trailExW, dP, loadModel, modelItems, Val.lookup, Val.pyEq, seqMode, sweepAll,
     Sweep.finish, bindO, loadIter, strictExcluded, Val.isMapping, Val.isStr, Val.iterElems,
     idxItems, LErr.pushO]
 
@@ -281,31 +262,31 @@ example : follow dP [.key (.str "tags"), .idx 1] = some (.int 5) := by
     faults of the present fields -/
 def dP2 : Val := .dict [(.str "tags", .list [.int 1])]
 
-example : load exW ⟨.all, true⟩ 4 (.model "P") dP2 = .err (LErr.agg [
+example : load trailExW ⟨.all, true⟩ 4 (.model "P") dP2 = .err (LErr.agg [
       LErr.leafD "NoRequiredFieldsLoadError" dP2 ["x"],
       (LErr.agg [(LErr.leaf "TypeLoadError" (.int 1)).push (.idx 0)]).push (.key (.str "tags"))]) := by
-  simp [load, exW, dP2, loadModel, modelItems, missingRequired, Val.lookup, Val.pyEq, seqMode,
+  simp [load, trailExW, dP2, loadModel, modelItems, missingRequired, Val.lookup, Val.pyEq, seqMode,
     sweepAll, Sweep.finish, bindO, loadIter, strictExcluded, Val.isMapping, Val.isStr,
     Val.iterElems, idxItems, LErr.pushO]
 
-example : Faults exW true 3 (.model "P") dP2 =
+example : Faults trailExW true 3 (.model "P") dP2 =
     [([], "NoRequiredFieldsLoadError"), ([.key (.str "tags"), .idx 0], "TypeLoadError")] := by
   have h1 : Val.lookup (.str "x") [(Val.str "tags", Val.list [.int 1])] = none := by
     simp [Val.lookup, Val.pyEq]
   have h2 : Val.lookup (.str "tags") [(Val.str "tags", Val.list [.int 1])] = some (.list [.int 1]) := by
     simp [Val.lookup, Val.pyEq]
-  show Faults exW true (2 + 1) (.model "P") dP2 = _
-  simp only [Faults, exW, dP2, beq_self_eq_true, ↓reduceIte, List.any_cons, h1, h2, List.flatMap_cons]
+  show Faults trailExW true (2 + 1) (.model "P") dP2 = _
+  simp only [Faults, trailExW, dP2, beq_self_eq_true, ↓reduceIte, List.any_cons, h1, h2, List.flatMap_cons]
   rfl
 
 /-- the tuple loader's arity errors show `tuple(data)`: the one looseness of `trail_exact` -/
-example : load exW ⟨.all, true⟩ 2 (.tuple [.scalar "int", .scalar "int"]) (.list [.int 1]) =
+example : load trailExW ⟨.all, true⟩ 2 (.tuple [.scalar "int", .scalar "int"]) (.list [.int 1]) =
     .err (LErr.leaf "NoRequiredItemsLoadError" (.tuple [.int 1])) := rfl
 
 /-- `Optional[int]` against a string: ONE report (the union) whose alternatives explain it -/
-example : load exW ⟨.all, true⟩ 2 (.union [.scalar "int", .scalar "none"] ["int", "NoneType"]) (.str "x") =
+example : load trailExW ⟨.all, true⟩ 2 (.union [.scalar "int", .scalar "none"] ["int", "NoneType"]) (.str "x") =
     .err (LErr.union [LErr.leaf "TypeLoadError" (.str "x"), LErr.leaf "TypeLoadError" (.str "x")]) := rfl
-example : Faults exW true 2 (.union [.scalar "int", .scalar "none"] ["int", "NoneType"]) (.str "x") =
+example : Faults trailExW true 2 (.union [.scalar "int", .scalar "none"] ["int", "NoneType"]) (.str "x") =
     [([], "UnionLoadError")] := rfl
 
 /-- the dict invariant is needed: `{1: "a", True: 5}` is not a Python dict (`1 == True`);
@@ -314,7 +295,7 @@ example : Faults exW true 2 (.union [.scalar "int", .scalar "none"] ["int", "Non
 def dBad : Val := .dict [(.int 1, .int 0), (.bool true, .int 5)]
 example : trailWf dBad = false := by
   simp [trailWf, trailWfKV, trailWfP, trailKeysOk, dBad, Val.pyEq]
-example : ∃ e, load exW ⟨.all, true⟩ 2 (.dict (.scalar "int") (.scalar "int")) dBad = .err e ∧
+example : ∃ e, load trailExW ⟨.all, true⟩ 2 (.dict (.scalar "int") (.scalar "int")) dBad = .err e ∧
     (reports e).map (fun p => (p.1, p.2.cls, p.2.input)) =
       [([.itemKey (.bool true)], "TypeLoadError", some (.bool true))] := ⟨_, rfl, rfl⟩
 example : follow dBad [.itemKey (.bool true)] = some (.int 1) := by
